@@ -20,7 +20,7 @@ RULE = ("exhaustive enumeration: (a) iterate_chunks over every shape with 1-3 di
         "(c) unbroadcast / broadcast_arrays_minimal over every subset of broadcast axes x every axis permutation x "
         "slicing steps on shapes <=3-d of 1..3, non-trivial = at least one broadcast axis of size>1; "
         "(d) view_shape over every view (None, Ellipsis, ints, positive-step slices, tuples of those up to ndim, "
-        "Ellipsis inside tuples, integer index arrays, boolean masks) on every shape <=3-d of 1..3, non-trivial = view not None/Ellipsis; "
+        "Ellipsis inside tuples, integer index arrays, boolean masks, bare lists / arrays of positions, lists of booleans) on every shape <=3-d of 1..3, non-trivial = view not None/Ellipsis; "
         "(e) categorical_ndarray / unique / index_lookup over every array over {a,b,c} of length <=5 (and 2x2, 2x3, 3x2), "
         "with and without explicit categories, every 1-d slice view; the 2-d arrays in C order, Fortran order, as a transposed view and "
         "as the transpose itself, plus transposed views of the categorical array; non-trivial = >=2 distinct values. "
@@ -275,6 +275,12 @@ def _build_view(vspec):
         return tuple(np.array(a, dtype=int) for a in vspec[1])
     if kind == "bool":
         return np.array(vspec[1], dtype=bool)
+    if kind == "list":          # a bare Python list of positions (or of booleans) along the first axis
+        return list(vspec[1])
+    if kind == "array1":        # a bare 1-d index array (not wrapped in a tuple)
+        return np.array(vspec[1], dtype=int)
+    if kind == "tuple-of-lists":
+        return tuple(list(a) for a in vspec[1])
     raise ValueError(kind)
 
 
@@ -310,6 +316,14 @@ def _views(shape):
     for pattern in range(min(2 ** size, 64)):
         bits = [(pattern >> i) & 1 for i in range(size)]
         yield ["bool", np.array(bits).reshape(shape).tolist()]
+    # bare lists and bare arrays of positions along the first axis, lists of booleans, tuples of lists
+    n0 = shape[0]
+    for pos in ([0], [n0 - 1], [0, n0 - 1], [-1, 0, 0], list(range(n0)), []):
+        yield ["list", pos]
+        yield ["array1", pos]
+    for pattern in range(2 ** n0):
+        yield ["list", [bool((pattern >> i) & 1) for i in range(n0)]]
+    yield ["tuple-of-lists", [[0, shape[ax] - 1] for ax in range(nd)]]
 
 
 def fn_vs(spec, rec):
